@@ -223,6 +223,7 @@ def run_job(sess, job):
         if job.backend == 'z3': cmd += ['--z3']
         elif job.backend == 'cvc5': cmd += ['--cvc5']
         elif job.backend == 'kissat': cmd += ['--external-sat-solver', 'kissat']
+        elif job.backend == 'cadical': cmd += ['--sat-solver', 'cadical']
         outp = os.path.join(d, 'cbmc.json')
         with open(outp, 'wb') as fo:
             rc, so, se, t = sh(cmd, timeout=job.timeout, stdout=fo)
